@@ -8,6 +8,7 @@ import (
 	"net/http"
 	"runtime"
 	"strings"
+	"sync/atomic"
 	"time"
 
 	"github.com/lxzan/gws"
@@ -158,7 +159,79 @@ func runC04(c *Ctx) error {
 		}
 		c.count("d12", true, "kind=d12")
 	}
+	// parallel handling with handlers slower than the peer (here: blocked): what gws takes from the transport and holds
+	// is bounded by the handler limit, not by how much the peer sends
+	for _, server := range []bool{true, false} {
+		const limit, nmsg, msz = 2, 300, 16 << 10
+		release := make(chan struct{})
+		var running atomic.Int32
+		h := &blockingHandler{release: release, running: &running}
+		tap := newMemConn()
+		var conn *gws.Conn
+		var err error
+		if server {
+			conn, err = serverConnWith(gws.NewUpgrader(h, &gws.ServerOption{ParallelEnabled: true, ParallelGolimit: limit, ReadMaxPayloadSize: 32 << 10}), tap, nil)
+		} else {
+			conn, _, err = clientConn(&gws.ClientOption{ParallelEnabled: true, ParallelGolimit: limit, ReadMaxPayloadSize: 32 << 10}, h, tap, "", nil)
+		}
+		tag := fmt.Sprintf("parallel flood server=%v limit=%d messages=%d x %d bytes", server, limit, nmsg, msz)
+		if err != nil {
+			return fmt.Errorf("%s: %v", tag, err)
+		}
+		var chunks [][]byte
+		for i := 0; i < nmsg; i++ {
+			chunks = append(chunks, encodeFrame(frameSpec{Fin: true, Opcode: 2, Masked: server, Key: [4]byte{1, 2, 3, byte(i)}, Payload: randBytes(c.Rng, msz), DeclLen: -1}))
+		}
+		g0 := runtime.NumGoroutine()
+		done := make(chan struct{})
+		go func() { conn.ReadLoop(); close(done) }()
+		tap.feed(chunks...)
+		// wait until the endpoint has stopped taking bytes (two equal samples 50 ms apart, after the handlers are busy)
+		pending := func() int {
+			tap.mu.Lock()
+			defer tap.mu.Unlock()
+			return len(tap.chunks)
+		}
+		last, stable := -1, 0
+		for i := 0; i < 200 && stable < 3; i++ {
+			time.Sleep(20 * time.Millisecond)
+			if p := pending(); p == last && int(running.Load()) >= limit {
+				stable++
+			} else {
+				last, stable = p, 0
+			}
+		}
+		taken := nmsg - pending()
+		extra := runtime.NumGoroutine() - g0
+		if taken > limit+8 || extra > limit+8 {
+			c.oracleFail(fmt.Sprintf("with %d message handlers allowed (all busy), the endpoint took %d messages (%d bytes, read limit %d) from the transport and runs %d extra goroutines: what it holds grows with what the peer sends [%s]",
+				limit, taken, taken*msz, 32<<10, extra, tag), "parallel-unbounded", map[string]any{"tag": tag, "taken": taken, "goroutines": extra})
+		}
+		close(release)
+		tap.setEOF()
+		select {
+		case <-done:
+		case <-time.After(20 * time.Second):
+			c.oracleFail("read loop did not return after the handlers were released ["+tag+"]", "read-hang", map[string]any{"tag": tag})
+		}
+		_ = tap.Close()
+		c.count(tag, true, "kind=parallel-flood")
+	}
 	return runC04Handshake(c)
+}
+
+// blockingHandler: OnMessage blocks until released
+type blockingHandler struct {
+	gws.BuiltinEventHandler
+	release chan struct{}
+	running *atomic.Int32
+}
+
+func (b *blockingHandler) OnMessage(c *gws.Conn, m *gws.Message) {
+	b.running.Add(1)
+	<-b.release
+	b.running.Add(-1)
+	_ = m.Close()
 }
 
 // mutated handshake bytes in both roles: no panic / hang; (conn == nil) == (err != nil)
